@@ -44,7 +44,7 @@ def scenarios(ctx):
     files = traffic.t_files()
     if quick:
         # quick: a rotating handful of the captures, but EVERY k for each (a stride would skip exactly the allocation that matters)
-        files = [f for i, f in enumerate(files) if i % 12 == r.randrange(12) or os.path.basename(f).startswith(("01", "15"))][:9]
+        files = [f for i, f in enumerate(files) if i % 4 == r.randrange(4) or os.path.basename(f).startswith(("01", "15"))][:30]
     for f in files:
         items = traffic.play_items(traffic.parse_t_file(f))
         if not items or sum(len(x) for x in items) > 40000:
@@ -71,6 +71,13 @@ def scenarios(ctx):
     gz = zlib.compress(b"hello hello hello hello " * 20)
     gzr = b"HTTP/1.1 200 OK\r\nContent-Encoding: deflate\r\nContent-Length: %d\r\n\r\n" % len(gz) + gz
     out.append(("respdecomp=1", "-", [">" + traffic.hx(b"GET /z HTTP/1.1\r\nHost: h\r\n\r\n"), "<" + traffic.hx(gzr[:80]), "<" + traffic.hx(gzr[80:])], "gen-deflate"))
+    # scenarios chosen offline (tools/c18_sites.py) from the distilled coverage corpus so that every allocation call chain the corpus
+    # reaches is swept, in both tiers (every k each)
+    sp = os.path.join(lib.CORPUS, "C18", "site_scenarios.json")
+    if os.path.exists(sp):
+        sel = json.load(open(sp))
+        for cfg, pol, items, name in sel:
+            out.append((cfg, pol, items.split(","), name))
     folded = b"GET / HTTP/1.1\r\nHost: h\r\nX-A: a\r\n b\r\nX-A: c\r\n\r\n"
     out.append(("-", "reg", [">" + traffic.hx(folded[:20]), ">" + traffic.hx(folded[20:]), "<" + traffic.hx(b"HTTP/1.0 200 OK\r\n\r\nbody"), "c"], "gen-folded"))
     return out
@@ -122,43 +129,70 @@ def run(ctx, model_ok=True, proofs_broken=False):
     total_runs = total_allocs = fired = leaks_observed = 0
     per = []
     crashes = {}
-    pos, startk, guard = 0, 1, 0
-    while pos < len(scs) and guard < 200:
-        guard += 1
-        lines = ["E %d %d %d" % (lim[0], lim[1], startk)] + ["S %s %s %s" % (c_, p_, ",".join(i_)) for c_, p_, i_, n_ in scs[pos:]]
-        so, se, src = run_afail(afail, lines, timeout=14400)
-        done = max(len(so) - 1, 0)
-        for (cfg, pol, items, name), o in zip(scs[pos:pos + done], so[1:]):
-            m = re.match(r"n=(\d+) runs=(\d+) fired=(\d+) bad=\[(.*)\]$", o)
-            if not m:
-                ctx.violation("sweep-unparsed", {"scenario": name, "impl": o}, found_input=False)
-                continue
-            total_allocs += int(m.group(1)); total_runs += int(m.group(2)); fired += int(m.group(3))
-            per.append((name, int(m.group(1)), int(m.group(2))))
-            entries = m.group(4).split()
-            # memory that is merely not released after a failed allocation is outside C18 as stated (no crash, no corruption,
-            # no double free, no use after free): counted as an observation, not reported
-            leaks_observed += sum(1 for e_ in entries if e_.endswith(":leak"))
-            entries = [e_ for e_ in entries if not e_.endswith(":leak")]
-            if entries:
-                sig = "sweep:%s:%s" % (name, entries[0].split(":")[1])
-                item = {"what": "scenario %s: %s" % (name, " ".join(entries)[:300]),
-                        "script": ["E 0 0", "S %s %s %s" % (cfg, pol, ",".join(items))]}
-                if sig in known:
-                    ctx.known_hits.append("%s (%s)" % (sig, known[sig]["what_fails"][:160]))
-                else:
-                    ctx.violation("sweep", item, found_input=True, sig=sig)
-        if len(so) == len(lines):
-            break
-        # died inside scenario pos+done at the k of the last RUN marker
-        runs = re.findall(r"^RUN (\d+) (\d+)$", se, re.M)
-        k = int(runs[-1][1]) if runs else 0
-        sc = scs[pos + done]
-        sig = "sweep-crash:" + crash_signature(se)
-        total_runs += k
-        crashes.setdefault(sig, []).append({"what": "sanitizer abort / crash with allocation #%d failed in scenario %s" % (k, sc[3]), "k": k,
-                                            "script": ["E 0 0 %d" % k, "S %s %s %s" % (sc[0], sc[1], ",".join(sc[2]))], "stderr": asan_excerpt(se)})
-        pos, startk = pos + done, k + 1
+    lines = []
+
+    def sweep_part(part):
+        """one harness process over `part` (resumed behind every crash); returns counters and findings for the main thread"""
+        r = {"allocs": 0, "runs": 0, "fired": 0, "leaks": 0, "per": [], "viol": [], "known": [], "crashes": [], "lines": []}
+        pos, startk, guard = 0, 1, 0
+        while pos < len(part) and guard < 200:
+            guard += 1
+            ls = ["E %d %d %d" % (lim[0], lim[1], startk)] + ["S %s %s %s" % (c_, p_, ",".join(i_)) for c_, p_, i_, n_ in part[pos:]]
+            r["lines"] = ls
+            so, se, src = run_afail(afail, ls, timeout=14400)
+            done = max(len(so) - 1, 0)
+            for (cfg, pol, items, name), o in zip(part[pos:pos + done], so[1:]):
+                m = re.match(r"n=(\d+) runs=(\d+) fired=(\d+) bad=\[(.*)\]$", o)
+                if not m:
+                    r["viol"].append(("sweep-unparsed", {"scenario": name, "impl": o}, False, None))
+                    continue
+                r["allocs"] += int(m.group(1)); r["runs"] += int(m.group(2)); r["fired"] += int(m.group(3))
+                r["per"].append((name, int(m.group(1)), int(m.group(2))))
+                entries = m.group(4).split()
+                # memory that is merely not released after a failed allocation is outside C18 as stated (no crash, no corruption,
+                # no double free, no use after free): counted as an observation, not reported
+                r["leaks"] += sum(1 for e_ in entries if e_.endswith(":leak"))
+                entries = [e_ for e_ in entries if not e_.endswith(":leak")]
+                if entries:
+                    sig = "sweep:%s:%s" % (name, entries[0].split(":")[1])
+                    item = {"what": "scenario %s: %s" % (name, " ".join(entries)[:300]),
+                            "script": ["E 0 0", "S %s %s %s" % (cfg, pol, ",".join(items))]}
+                    if sig in known:
+                        r["known"].append("%s (%s)" % (sig, known[sig]["what_fails"][:160]))
+                    else:
+                        r["viol"].append(("sweep", item, True, sig))
+            if len(so) == len(ls):
+                break
+            # died inside scenario pos+done at the k of the last RUN marker
+            runs = re.findall(r"^RUN (\d+) (\d+)$", se, re.M)
+            k = int(runs[-1][1]) if runs else 0
+            sc = part[pos + done]
+            sig = "sweep-crash:" + crash_signature(se)
+            r["runs"] += k
+            r["crashes"].append((sig, {"what": "sanitizer abort / crash with allocation #%d failed in scenario %s" % (k, sc[3]), "k": k,
+                                       "script": ["E 0 0 %d" % k, "S %s %s %s" % (sc[0], sc[1], ",".join(sc[2]))], "stderr": asan_excerpt(se)}))
+            pos, startk = pos + done, k + 1
+        return r
+
+    # the scenarios are independent: spread them over the cores (longest first, round-robin)
+    import concurrent.futures
+    nw = max(1, min(lib.NCPU if hasattr(lib, "NCPU") else (os.cpu_count() or 4), len(scs)))
+    order = sorted(range(len(scs)), key=lambda i: -sum(len(x) for x in scs[i][2]))
+    parts = [[scs[i] for i in order[w::nw]] for w in range(nw)]
+    with concurrent.futures.ThreadPoolExecutor(max_workers=nw) as ex:
+        results = list(ex.map(sweep_part, [p_ for p_ in parts if p_]))
+    for r in results:
+        total_allocs += r["allocs"]; total_runs += r["runs"]; fired += r["fired"]; leaks_observed += r["leaks"]
+        per += r["per"]
+        ctx.known_hits += r["known"]
+        for kind, item, fi, sig in r["viol"]:
+            if sig is None:
+                ctx.violation(kind, item, found_input=fi)
+            else:
+                ctx.violation(kind, item, found_input=fi, sig=sig)
+        for sig, item in r["crashes"]:
+            crashes.setdefault(sig, []).append(item)
+        lines = r["lines"] or lines
     for sig, items in crashes.items():
         if sig in known:
             ctx.known_hits.append("%s (%s) x%d" % (sig, known[sig]["what_fails"][:160], len(items)))
